@@ -64,6 +64,19 @@ type structLayout struct {
 	fields map[*Node]map[string]string // container -> yang name -> field name
 }
 
+// listOfValues: the list is a slice of struct values ([]S) rather than of pointers ([]*S); only nodeutil.Reflect
+// documents support for that.
+func (l *structLayout) listOfValues(d *Node) bool {
+	if l.exact || l.listIsMap(d) {
+		return false
+	}
+	h := 0
+	for _, r := range d.Name {
+		h += int(r)
+	}
+	return h%2 == 0
+}
+
 func (l *structLayout) listIsMap(d *Node) bool {
 	if len(d.Keys) != 1 || d.Child(d.Keys[0]).Type.Eff().Base != "string" {
 		return false
@@ -116,6 +129,8 @@ func (l *structLayout) typeOf(n *Node) (reflect.Type, error) {
 			}
 			if l.listIsMap(d) {
 				f.Type = reflect.MapOf(reflect.TypeOf(""), reflect.PtrTo(t))
+			} else if l.listOfValues(d) {
+				f.Type = reflect.SliceOf(t)
 			} else {
 				f.Type = reflect.SliceOf(reflect.PtrTo(t))
 			}
@@ -200,6 +215,15 @@ func (l *structLayout) fill(n *Node, v reflect.Value, t Tree) error {
 					m.SetMapIndex(reflect.ValueOf(e.(Tree)[d.Keys[0]].(string)), p)
 				}
 				f.Set(m)
+			} else if l.listOfValues(d) {
+				// len == cap, so that the first append reallocates
+				s := reflect.MakeSlice(f.Type(), len(xs), len(xs))
+				for i, e := range xs {
+					if err := l.fill(d, s.Index(i), e.(Tree)); err != nil {
+						return err
+					}
+				}
+				f.Set(s)
 			} else {
 				s := reflect.MakeSlice(f.Type(), 0, len(xs))
 				for _, e := range xs {
@@ -274,6 +298,9 @@ func (l *structLayout) read(n *Node, v reflect.Value, where string) (Tree, error
 			} else {
 				for i := 0; i < f.Len(); i++ {
 					p := f.Index(i)
+					if p.Kind() == reflect.Struct {
+						p = p.Addr()
+					}
 					if p.IsNil() {
 						return nil, fmt.Errorf("%s/%s[%d]: nil entry", where, d.Name, i)
 					}
